@@ -44,8 +44,10 @@ def build(p, styles):
     return TimeInterval(to_dt(p[0], styles[0]), to_dt(p[1], styles[1]))
 
 
-def rel_case(a, b, sa, sb):
-    A, B = build(a, sa), build(b, sb)
+def rel_case(a, b, sa, sb, A=None, B=None):
+    """A / B may be supplied: intervals the LIBRARY returned (union, intersection, copy) instead of constructor-built ones"""
+    A = build(a, sa) if A is None else A
+    B = build(b, sb) if B is None else B
     obs = {
         'sub': A.issubset(B), 'sup': A.issuperset(B), 'dis': A.isdisjoint(B), 'int': A.intersects(B),
         'in': B in A, 'eq': A == B, 'hasheq': hash(A) == hash(B),
@@ -181,6 +183,33 @@ def main():
         if len({a[0], a[1], b[0], b[1]}) < 4:
             nontrivial.add((a, b))
         ck.count('rel:' + ('instant-' if a[0] == a[1] else 'interval-') + ('instant' if b[0] == b[1] else 'interval'))
+    # intervals RETURNED by the library (union, intersection, copy, and copies of those) must behave as the
+    # interval with the same bounds built by the constructor: every relation and membership again, with the
+    # returned object as receiver and as argument
+    derived_src = [(a, b) for a in ivs for b in ivs]
+    if ck.tier == 'quick':
+        derived_src = [p for i, p in enumerate(derived_src) if i % 5 == 0 or (p[0][0] == p[0][1] and p[1][0] == p[1][1])]
+    third = [(H, H), (2 * H, 4 * H), (0, 6 * H), (3 * H, 3 * H), (H, 5 * H)]
+    for n, (a, b) in enumerate(derived_src):
+        sa, sb = next(styles_cycle), next(styles_cycle)
+        A, B = build(a, sa), build(b, sb)
+        outs = [('union', guarded(lambda: A.union(B))), ('intersection', guarded(lambda: A.intersection(B))),
+                ('copy', guarded(lambda: A.copy()))]
+        for how, r in outs:
+            if r[0] != 'Ok' or r[1] is None:
+                continue
+            D = r[1] if n % 2 else r[1].copy()           # also through a copy of the returned object
+            d = iv_out(D)
+            c = third[n % len(third)]
+            for t in (d[0], d[1], (d[0] + d[1]) // 2, d[1] - 1, c[0]):
+                o1, o2 = to_dt(t, sa[0]) in D, D.intersects(to_dt(t, sb[1]))
+                add(f'KContains {ivl(d)} {zlit(t)} {blit(o1)} {blit(o2)}', {'k': 'contains', 'a': d, 't': t, 'in': o1, 'intersects': o2,
+                                                                             'derived': how, 'from': [a, b]})
+            lit, obs = rel_case(d, c, None, next(styles_cycle), A=D)
+            add(lit, {'k': 'rel', 'a': d, 'b': c, 'styles': [how, 'ctor'], 'obs': obs, 'derived': how, 'from': [a, b]})
+            lit, obs = rel_case(c, d, next(styles_cycle), None, B=D)
+            add(lit, {'k': 'rel', 'a': c, 'b': d, 'styles': ['ctor', how], 'obs': obs, 'derived': how, 'from': [a, b]})
+            ck.count('derived:' + how)
     ck.cov['evaluations'] = len(cases)
     ck.cov['distinct_nontrivial'] = len(nontrivial)
     ck.cov['exhaustive'] = True
